@@ -12,7 +12,9 @@ otherwise Nondeterminism is raised (check exits 2, "broken").
 """
 import hashlib
 import json
+import os
 import random
+import signal
 
 
 class Nondeterminism(Exception):
@@ -71,6 +73,44 @@ class Outcome:
         self.violations = violations or []
         self.states = states
         self.sample = sample
+
+
+HANG_SECONDS = float(os.environ.get("VF_HANG_SECONDS", "10"))
+
+
+class ExecutionHang(BaseException):
+    """raised inside an execution that has used HANG_SECONDS of CPU time (a loop in the code under test that never ends)"""
+
+
+_HUNG = [0]
+
+
+def guarded(harness, job, ch):
+    """run one execution under a CPU-time limit: code that spins for ever becomes a violation, not a check that never returns.
+    Harnesses record exceptions that escape the code under test (`except BaseException`), so the interrupt may be swallowed:
+    the handler re-arms itself (1 s) until the harness has returned, and the verdict is taken from the counter."""
+    def onalarm(sig, frm):
+        _HUNG[0] += 1
+        signal.setitimer(signal.ITIMER_VIRTUAL, 1.0)
+        raise ExecutionHang()
+    try:
+        old = signal.signal(signal.SIGVTALRM, onalarm)
+    except ValueError:           # not in the main thread: no guard
+        return harness(job, ch)
+    _HUNG[0] = 0
+    signal.setitimer(signal.ITIMER_VIRTUAL, HANG_SECONDS)
+    out = None
+    try:
+        out = harness(job, ch)
+    except ExecutionHang:
+        pass
+    finally:
+        signal.setitimer(signal.ITIMER_VIRTUAL, 0)
+        signal.signal(signal.SIGVTALRM, old)
+    if _HUNG[0]:
+        return Outcome(obs=("hang",), violations=[("hang:execution", "the execution did not end within %g s of CPU time "
+                                                   "(choices so far %r)" % (HANG_SECONDS, list(ch.choices)[:60]))])
+    return out
 
 
 def h64(x):
@@ -150,8 +190,8 @@ def explore_job(harness, job, bound=None, cap=None, want_samples=2, seed=0):
     while stack:
         prefix, expect = stack.pop()
         ch = Chooser(prefix, expect)
-        out = harness(job, ch)
-        if len(ch.choices) < len(prefix):
+        out = guarded(harness, job, ch)
+        if len(ch.choices) < len(prefix) and out.obs != ("hang",):
             raise Nondeterminism("replay: execution ended after %d points, prefix has %d" % (len(ch.choices), len(prefix)))
         if shard and not prefix:
             # root execution: counted by shard 0 only; children dealt round-robin
@@ -187,6 +227,10 @@ def explore_job(harness, job, bound=None, cap=None, want_samples=2, seed=0):
                 prev = hs
         for key, msg in out.violations:
             res.add_violation(key, msg, job, ch.choices, nd)
+        if out.obs == ("hang",):      # every further execution through the same loop would cost HANG_SECONDS: the job stops here
+            res.capped = True
+            res.extra["stopped_after_hang"] = 1
+            break
         if len(res.samples) < want_samples and (res.executions == 1 or rnd.random() < 0.01):
             res.samples.append(dict(job=job, choices=_trim(ch.choices),
                                     labels=[p[0] for p in ch.points][:40],
@@ -211,7 +255,7 @@ def explore_job(harness, job, bound=None, cap=None, want_samples=2, seed=0):
 
 def replay(harness, job, choices):
     ch = Chooser(tuple(choices))
-    out = harness(job, ch)
+    out = guarded(harness, job, ch)
     return ch, out
 
 
